@@ -1,6 +1,7 @@
 import Redproxy.Model.Socks
 import Redproxy.Model.Http
 import Redproxy.Model.Frames
+import Redproxy.Model.Fragment
 /-! Model side of the codec line protocol (see harness/codec.rs for the formats). -/
 namespace Redproxy.Driver.Codec
 open Redproxy Redproxy.Socks
@@ -192,6 +193,21 @@ def step (line : String) : String :=
   | ["FSTREAM", segs] =>
     match parseSegs segs with
     | some segs => streamAll 1001 [] (mkSS segs) ""
+    | none => "bad-op"
+  | ["RFR", ds] =>
+    match parseSegs ds with
+    | some ds =>
+      let (_, outs) := ds.foldl (fun (acc : Fragment.St × List String) d =>
+        let (st', o) := Fragment.reassemble 3600000 acc.1 0 d
+        let s := match o with
+          | .none => "none"
+          | .panic _ => "panic"
+          | .frame b => match Frames.fromBuffer b with
+            | .ok f => s!"[{showFrame f}]"
+            | .err _ => "none"
+            | .panic _ => "panic"
+        (st', acc.2 ++ [s])) (({} : Fragment.St), ([] : List String))
+      String.intercalate " " outs
     | none => "bad-op"
   | ["UDEC", h] =>
     match bytesOfHex h with
